@@ -618,7 +618,11 @@ func checkProgram(in replayInput) {
 	res.Dist(fmt.Sprintf("removed-constants:%s", bucket(removed)))
 	// idempotence on the real code: a second pass changes nothing
 	again := bcSexp(ded.BC, ids)
-	ded.BC.RemoveDuplicates()
+	if pv := safeCall(func() { ded.BC.RemoveDuplicates() }); pv != "" {
+		res.Violate(lib.Violation{Signature: "dedup-panics", Stream: "dups", Input: in, Observed: "second RemoveDuplicates: panic: " + pv,
+			Expected: "RemoveDuplicates returns", Oracle: "recover around the call"})
+		return
+	}
 	if bcSexp(ded.BC, ids) != again {
 		res.Violate(lib.Violation{Signature: "dedup-not-idempotent", Stream: "dups", Input: in, Observed: "second RemoveDuplicates changed the bytecode",
 			Expected: "fixed point", Oracle: "RemoveDuplicates twice"})
@@ -939,6 +943,17 @@ func r0(r *lib.RNG, rep int) int {
 func fatal(err error) {
 	fmt.Fprintln(os.Stderr, "c12:", err)
 	os.Exit(3)
+}
+
+// safeCall runs f and returns the recovered panic value ("" = none).
+func safeCall(f func()) (pv string) {
+	defer func() {
+		if p := recover(); p != nil {
+			pv = fmt.Sprint(p)
+		}
+	}()
+	f()
+	return ""
 }
 
 func main() {
